@@ -4,6 +4,7 @@ use mc_core::Ctx;
 mod c12;
 mod c13;
 mod c13_l2;
+mod explore;
 
 fn main() {
     let ctx = Ctx::from_args();
